@@ -357,6 +357,21 @@ theorem export_single_design_band_fails_old :
   · decide
   · decide
 
+/-- the same for a transceiver that states design bands: export + reload gives them back, whatever bands the amplifiers
+chosen by the first design have -/
+theorem export_reload_design_bands_transceiver (fromAmps bs : List DesignBand) (h : bs ≠ []) :
+    reloadBandsTrx fromAmps (exportBands bs) = bs := by
+  simp [reloadBandsTrx, exportBands, h]
+
+/-- the transceiver export as it was before the repair dropped them: the reloaded line was designed for the (wider) bands
+of its amplifiers - the witness of the finding export-drops-transceiver-design-bands (C band stated up to 195.1 THz,
+amplifiers reaching 196.1 THz) -/
+theorem export_transceiver_design_bands_fails_old :
+    ∃ fromAmps bs : List DesignBand, bs ≠ [] ∧ reloadBandsTrx fromAmps (exportBandsTrxOld bs) ≠ bs := by
+  refine ⟨[⟨191300000000000, 196100000000000, 50000000000⟩], [⟨191300000000000, 195100000000000, 50000000000⟩], ?_, ?_⟩
+  · decide
+  · decide
+
 /-! ### non-vacuity -/
 
 /-- `FitsAll` and the offset hypothesis of `redesign_fixpoint` hold for a two-amplifier OMS (auto booster, preamp) -/
